@@ -71,7 +71,17 @@ func C16(p *core.Program, r *core.Report) {
 			fs := fieldStores(a)
 			// the candidate's link: the string field that receives the normalised href
 			for label, vals := range fs {
-				if len(vals) == 1 && c.Of(vals[0]) == "stringutil.UnescapedString(url.Parse("+href+")#0)" {
+				nNorm := 0
+				if len(vals) == 1 && allPhiLeaves(vals[0], func(v ssa.Value) bool {
+					if s, isC := core.ConstString(v); isC && s == "" {
+						return true // the "could not be cleaned" alternative (such a link is skipped; an empty link is no URL)
+					}
+					if c.Of(v) == "stringutil.UnescapedString(url.Parse("+href+")#0)" {
+						nNorm++
+						return true
+					}
+					return false
+				}, map[ssa.Value]bool{}) && nNorm > 0 {
 					linkField = label
 				}
 			}
@@ -223,7 +233,7 @@ func C16(p *core.Program, r *core.Report) {
 	fp := mustInl(p, r, "Q3", "(*"+paginationPkg+".PageNumberFinder).FindPagination")
 	if fp != nil {
 		var results []string
-		paths, _, err := core.EnumerateDecisions(p, fp, core.DecisionOpts{
+		paths, _, err := core.EnumerateDecisions(p, fp, core.DecisionOpts{ResolvePhis: true,
 			Outcome: func(in ssa.Instruction, c *core.Canon) (string, bool) {
 				if _, ok := in.(*ssa.Return); ok {
 					return "return", true
@@ -307,14 +317,16 @@ func C16(p *core.Program, r *core.Report) {
 			for _, in := range b.Instrs {
 				if st, ok := in.(*ssa.Store); ok && c.Of(st.Addr) == "&new(distiller.Result).PaginationInfo" {
 					n++
-					v := c.Of(st.Val)
-					if !strings.Contains(v, "FindPagination(") {
+					// every alternative that can be stored is the answer of one of the two finders
+					if !allPhiLeaves(st.Val, func(v ssa.Value) bool {
+						return core.IsCallValue("(*"+paginationPkg+".PrevNextFinder).FindPagination", "(*"+paginationPkg+".PageNumberFinder).FindPagination")(v)
+					}, map[ssa.Value]bool{}) {
 						okAll = false
 					}
 				}
 			}
 		}
-		r.Add("Q3", "Result.PaginationInfo comes from the two finders only", p.Pos(ap.Pos()), okAll && n == 2, fmt.Sprintf("%d stores", n))
+		r.Add("Q3", "Result.PaginationInfo comes from the two finders only", p.Pos(ap.Pos()), okAll && n >= 1, fmt.Sprintf("%d stores", n))
 	}
 	if pf := mustInl(p, r, "Q3", "(*"+paginationPkg+".PrevNextFinder).FindPagination"); pf != nil {
 		for _, ret := range core.Returns(pf) {
@@ -376,4 +388,37 @@ func isPageInfoURLCopy(v ssa.Value, seen map[ssa.Value]bool) bool {
 		}
 	}
 	return false
+}
+
+// allPhiLeaves: every value that can flow into v through phis (and loads of locals that were
+// stored once) satisfies pred.
+func allPhiLeaves(v ssa.Value, pred func(ssa.Value) bool, seen map[ssa.Value]bool) bool {
+	if seen[v] {
+		return true
+	}
+	seen[v] = true
+	v = core.StripConv(v)
+	if ph, ok := v.(*ssa.Phi); ok {
+		for _, e := range ph.Edges {
+			if !allPhiLeaves(e, pred, seen) {
+				return false
+			}
+		}
+		return true
+	}
+	if u, ok := v.(*ssa.UnOp); ok && u.Op.String() == "*" {
+		if al, ok := u.X.(*ssa.Alloc); ok {
+			n, okAll := 0, true
+			for _, ref := range *al.Referrers() {
+				if st, ok := ref.(*ssa.Store); ok && st.Addr == ssa.Value(al) {
+					n++
+					if !allPhiLeaves(st.Val, pred, seen) {
+						okAll = false
+					}
+				}
+			}
+			return n > 0 && okAll
+		}
+	}
+	return pred(v)
 }
